@@ -67,6 +67,10 @@ def literal_forms():
     out += ["$[?!(@.a == 1)]", "$[?!@.a == 1]", "$[?(!@.a) == 1]", "$[?!(@.a == 1 || @.b == 2)]", "$[?!(@.a && @.b)]",
             "$[?!@.a && @.b]", "$[?@.a || @.b && @.c]", "$[?(@.a || @.b) && @.c]", "$[?@.a && @.b || @.c]",
             "$[?@.a && (@.b || @.c)]", "$[?!(!@.a)]", "$[?!(!(@.a == 1))]", "$[?((@.a))]", "$[?@.a == 1 == true]",
+            # logical groups and comparisons as operands of comparisons (accepted by the default environment)
+            "$[?(@.a && @.b) == false]", "$[?true == (@.a || @.b)]", "$[?(@.a == 1) == true]", "$[?(@.a < 2) != (@.b < 2)]",
+            "$[?(!@.a) == true]", "$[?(@.a || @.b) == (@.a && @.b)]", "$[?((@.a == 1) == true) == false]",
+            "$[?1 == (@.a == 1)]", "$[?(@.a in [1]) == true]", "$[?@.a in [1] == true]",
             "^[?@.a]", "^[0]", "^", "^..a", "$[?^[0].a == @.a]", "$[?@ == ^[0][0]]", "$", "", "$..", "$..*", "$.a..", "$[?@..a]"]
     return out
 
